@@ -16,6 +16,9 @@ from __future__ import annotations
 import glob
 import json
 import os
+import shutil
+import tempfile
+import types
 
 from . import common as C
 from . import sess_common as S
@@ -25,7 +28,9 @@ PROPS_MODULES = ["AsyncFix.Props.C07"]
 FINDINGS_MODULE = None
 ASSUMPTIONS = [
     "the transport is reliable and FIFO until it breaks; a break loses every frame in flight in both directions and "
-    "both endpoints see it (EOF) before the next connection is made; frames arrive one per read()",
+    "both endpoints see it (EOF) before the next connection is made; in the MODEL frames arrive one per read() - on "
+    "the implementation side the harness also hands the reader arbitrary chunkings of a frame (splits anywhere, "
+    "<= 4096 bytes per read) through the real socket_read_task (chunk-independence itself is C03)",
     "application hooks return normally; should_replay is the library default (True); the application sends only "
     "application messages (type outside 0 1 2 4 5 A, no header/trailer tags 8 9 10 34 35 49 52 56; an explicit "
     "PossDupFlag(43) other than Y and an OrigSendingTime(122) are allowed and generated) and the "
@@ -36,6 +41,12 @@ ASSUMPTIONS = [
     "and InRange (outbound counters of the final state <= sys.maxsize + 1, i.e. within SQLite's INTEGER range)",
 ]
 MODELLED_NOT_VERIFIED = [
+    "C07: the theorems quantify over the four base events (appSend, deliverNext, breakConn, reconnect) with in-memory-"
+    "equivalent journals. Graceful logout by either application and endpoint RESTART over a file journal (new Journaler "
+    "+ new connection object, open transaction lost) are events of the executable extension Model/LinkX.lean "
+    "(stepX (.base ev) = step ev) and are covered by lock-step correspondence and the oracle only; so are delivery in "
+    "chunks, framing-like / long field values and backlogs of 100-1000+ messages (the model is value- and size-"
+    "independent, the implementation is exercised on them)",
     "C07: the composition (queues, break, reconnect, who sends Logon) is hand-modelled in Model/Link.lean on top of the "
     "hand-modelled Session model; the tie is the lock-step comparison against two real connection objects every check",
 ]
@@ -69,23 +80,42 @@ class _Log:
 
 
 class Pair:
-    """initiator + acceptor (two real AsyncFIXConnection objects with their own in-memory journals) and the two
-    queues of raw frames in flight."""
+    """initiator + acceptor (two real AsyncFIXConnection objects with their own journals) and the two queues of raw
+    frames in flight.  `file=True`: SQLite FILE journals (harness/c09_impl.RImpl) – the configuration in which an
+    endpoint can be RESTARTED: the connection object and its Journaler are discarded (open transaction lost, as
+    after a process death) and rebuilt over the same file."""
 
-    def __init__(self, hb=HB):
-        self.hb = hb
-        self.ends = {"I": S.Impl(), "A": S.Impl()}
-        for e in self.ends.values():
-            e.conn.log = _Log(e.eff)
+    def __init__(self, hb=HB, file=False):
+        self.hb, self.file = hb, file
+        self.tmpdir = None
+        if file:
+            from .c09_impl import RImpl
+            base = "/dev/shm" if os.path.isdir("/dev/shm") else None
+            self.tmpdir = tempfile.mkdtemp(prefix="c07-", dir=base)
+            self.ends = {}
+            for side in ("I", "A"):
+                d = os.path.join(self.tmpdir, side)
+                os.mkdir(d)
+                self.ends[side] = RImpl(d)
+        else:
+            self.ends = {"I": S.Impl(), "A": S.Impl()}
         self.reset()
 
     def close(self):
         self.ends["A"].close()
         self.ends["I"].close()
+        if self.tmpdir:
+            shutil.rmtree(self.tmpdir, ignore_errors=True)
 
     def reset(self):
+        if self.file:
+            for e in self.ends.values():
+                e.new_file()
         self.ends["I"].load(S.AbsConn(state=1, role=1, sender=NAME_I, target=NAME_A, hb=self.hb))
         self.ends["A"].load(S.AbsConn(state=1, role=2, sender=NAME_A, target=NAME_I, hb=self.hb))
+        for e in self.ends.values():
+            e.conn.log = _Log(e.eff)
+        self.restarts = 0
         self.q = {"I": [], "A": []}          # raw frames travelling TOWARDS that side
         self.delivered = {"I": [], "A": []}  # (mtype, fields) handed to on_message
         self.accepted = {"I": [], "A": []}   # (mtype, tags) whose send_msg returned normally
@@ -94,6 +124,10 @@ class Pair:
 
     # ---- helpers
     def _clock(self, now):
+        # several Impl objects patch the module clock at construction (the last one wins): set it here, per event
+        e0 = self.ends["I"]
+        e0.cm.time = types.SimpleNamespace(time=lambda: now / 1000)
+        e0.Codec.current_datetime = staticmethod(lambda: S.stamp(now))
         for e in self.ends.values():
             e.now_ms = now
 
@@ -141,7 +175,8 @@ class Pair:
                 self.accepted[side].append((m[0], list(m[1])))
             return toks
         if k == "d":
-            _, side, now = ev
+            side, now = ev[1], ev[2]
+            cuts = list(ev[3]) if len(ev) > 3 else []
             self._clock(now)
             if not self.q[side]:
                 return []
@@ -150,7 +185,18 @@ class Pair:
                 return []
             e = self.ends[side]
             c = e.conn
-            c._socket_reader = S._Reader([raw])
+            # the transport hands the reader the frame in pieces: at the given cut positions (fractions of the frame
+            # length, so that a replay does not depend on the exact bytes) and never more than 4096 bytes per read()
+            pos = sorted({min(len(raw) - 1, max(1, int(f * len(raw)))) for f in cuts if len(raw) > 1})
+            pieces, last = [], 0
+            for x in pos + [len(raw)]:
+                seg = raw[last:x]
+                last = x
+                while seg:
+                    pieces.append(seg[:4096])
+                    seg = seg[4096:]
+            self.chunked = getattr(self, "chunked", 0) + (1 if len(pieces) > 1 else 0)
+            c._socket_reader = S._Reader(pieces)
             try:
                 S.run_coro(c.socket_read_task())
             except S._Done:
@@ -191,6 +237,23 @@ class Pair:
             e.apply("all", ("conn", "init"))
             e.apply("all", ("send", now, ("A", [(98, "0"), (108, str(self.hb))])))
             return toks + self._collect("I")
+        if k == "o":
+            # graceful logout by the application of that side
+            _, side, now, text = ev
+            self._clock(now)
+            e = self.ends[side]
+            e.apply("all", ("disc", now, 2, text))
+            return self._collect(side)
+        if k == "x":
+            # endpoint restart: new Journaler + new connection object over the same file; only without a transport
+            side = ev[1]
+            e = self.ends[side]
+            if not self.file or self.sock(side):
+                return []
+            e.restart(1 if side == "I" else 2)
+            e.conn.log = _Log(e.eff)
+            self.restarts += 1
+            return []
         raise ValueError(ev)
 
     # ---- observation
@@ -236,7 +299,19 @@ def ev_tokens(ev):
         return f"s {ev[1]} {ev[2]} {S.stok(S.stamp(ev[2]))} {S.msg_tok(ev[3])}"
     if k == "d":
         return f"d {ev[1]} {ev[2]} {S.stok(S.stamp(ev[2]))}"
+    if k == "o":
+        return f"o {ev[1]} {ev[2]} {S.stok(S.stamp(ev[2]))} {S.stok(ev[3])}"
+    if k == "x":
+        return f"x {ev[1]}"
     return f"{k} {ev[1]} {S.stok(S.stamp(ev[1]))}"
+
+
+def ev_now(ev, default=T0):
+    if ev[0] in ("s", "d", "o"):
+        return ev[2]
+    if ev[0] in ("b", "r"):
+        return ev[1]
+    return default
 
 
 def ev_json(ev):
@@ -246,6 +321,8 @@ def ev_json(ev):
 def ev_from_json(j):
     if j[0] == "s":
         return ("s", j[1], j[2], (j[3][0], [(int(t), v) for t, v in j[3][1]]))
+    if j[0] == "d" and len(j) > 3:
+        return ("d", j[1], j[2], tuple(j[3]))
     return tuple(j)
 
 
@@ -254,12 +331,16 @@ def model_line(events, k, hb=HB):
 
 
 def short(ev):
-    return {"s": "s", "d": "d", "b": "b", "r": "r"}[ev[0]] + (ev[1] if ev[0] in ("s", "d") else "")
+    return ev[0] + (ev[1] if ev[0] in ("s", "d", "o", "x") else "") + ("~" if ev[0] == "d" and len(ev) > 3 and ev[3] else "")
 
 
 # ------------------------------------------------------------------------------------------------
 # walks
 # ------------------------------------------------------------------------------------------------
+
+FRAMING_VALUES = ["FIX.4.4", "FIX.4.4 is what 8=FIX.4.4 looks like", "8=FIX.4.4", "10=000", "9=12", "35=A", "a=b=c", "=",
+                  "FIX.", "10=", "x" * 300 + "8=FIX.4.4" + "y" * 300, "34=1 43=Y", "FIXT.1.1"]
+
 
 def payload(side, n):
     """application messages of 4 kinds; every 3rd one carries header-ish tags an application may legally set itself:
@@ -268,6 +349,14 @@ def payload(side, n):
              ("U7", [(58, f"{side}-{n}")]), ("3", [(45, str(n)), (58, side)])]
     mt, tags = kinds[n % len(kinds)] if n % 5 else kinds[0]
     tags = list(tags)
+    if n % 4 == 2:
+        # VALUES that look like framing: BeginString / BodyLength / CheckSum look-alikes, under tags ending in 8 / 9 / 0,
+        # '=' inside values, long values (longer than one 4096-byte read)
+        v = FRAMING_VALUES[(n // 4) % len(FRAMING_VALUES)]
+        tags = [(t, x) for t, x in tags if t != 58] + [(58, v), (148, "FIX.4.4 head"), (10008, "FIX.4.2"), (359, "12")]
+        if (n // 4) % 40 == 3:
+            tags.append((354, "4200"))
+            tags.append((355, "FIX." + "x" * 4196))   # longer than one 4096-byte read
     if n % 3 == 1:
         tags.append((43, "N"))
         if n % 2:
@@ -283,13 +372,17 @@ def gen_walk(pair: Pair, rng, max_len, max_breaks, on_event=None):
     n = rng.randint(max(4, max_len // 3), max_len)
     breaks = 0
     style = rng.random()
+    p_logout = rng.choice([0.0, 0.03, 0.06])
+    p_chunk = rng.choice([0.0, 0.5, 1.0])
     out = []
     for i in range(n):
         now += rng.choice([0, 125, 250, 1000])
         connected = pair.sock("I") or pair.sock("A")
         r = rng.random()
         if not connected:
-            if r < 0.75:
+            if pair.file and r < 0.25:
+                ev = ("x", rng.choice("IA"))
+            elif r < 0.75:
                 ev = ("r", now)
             elif r < 0.9:
                 ev = ("s", rng.choice("IA"), now, payload("z", len(pair.accepted["I"]) + len(pair.accepted["A"])))
@@ -308,6 +401,10 @@ def gen_walk(pair: Pair, rng, max_len, max_breaks, on_event=None):
                 breaks += 1
             elif r < p_break + 0.03:
                 ev = ("r", now)
+            elif r < p_break + 0.03 + p_logout:
+                ev = ("o", rng.choice([s for s in "IA" if pair.sock(s)]), now, rng.choice(["bye", "", "end of day"]))
+            elif pair.file and r < p_break + 0.05 + p_logout:
+                ev = ("x", rng.choice("IA"))
             elif pending and r < 0.62:
                 ev = ("d", rng.choice(pending), now)
             elif r < 0.66:
@@ -315,6 +412,8 @@ def gen_walk(pair: Pair, rng, max_len, max_breaks, on_event=None):
             else:
                 side = rng.choice("IA")
                 ev = ("s", side, now, payload(side, len(pair.accepted[side]) + i))
+        if ev[0] == "d" and rng.random() < p_chunk:
+            ev = ev + (tuple(round(rng.random(), 3) for _ in range(rng.randint(1, 3))),)
         toks = pair.apply(ev)
         if on_event:
             on_event(ev, toks)
@@ -350,13 +449,22 @@ def long_walk(pair: Pair, rng, size, on_event, force=None):
 
     def do(*ev):
         now[0] += 125
-        if ev[0] in ("s", "d"):
+        if ev[0] in ("s", "d", "o"):
             e = (ev[0], ev[1], now[0]) + tuple(ev[2:])
+        elif ev[0] == "x":
+            e = ("x", ev[1])
         else:
             e = (ev[0], now[0])
+        if e[0] == "d" and rng.random() < 0.3:
+            e = e + ((round(rng.random(), 3),),)
         toks = pair.apply(e)
         events.append(e)
         on_event(e, toks)
+        if e[0] == "b" and pair.file:
+            # CONFIGURATION: endpoints restarted over their journal files while the link is down
+            for side in "IA":
+                if rng.random() < 0.4:
+                    do("x", side)
 
     def send(side):
         counters[side] += 1
@@ -554,8 +662,8 @@ def correspondence(ctx):
             segs = run_events(pair, events, 1)
             walks.append((label, events, segs, 1))
         # random walks
-        nw, ml, mb = ctx.n(3000, 20000), ctx.n(40, 120), ctx.n(3, 6)
-        K = ctx.n(1, 12)
+        nw, ml, mb = ctx.n(1000, 8000), ctx.n(40, 120), ctx.n(3, 6)
+        K = ctx.n(8, 12)
         for w in range(nw):
             segs = []
 
@@ -583,6 +691,33 @@ def correspondence(ctx):
             if pair.anomalies:
                 dis.append({"input": {"events": [ev_json(e) for e in events], "label": "harness-anomaly"},
                             "model": "-", "impl": repr(pair.anomalies[:3])[:600]})
+        # CONFIGURATION: file journals, endpoints restarted (new Journaler + new connection object over the same file)
+        fpair = Pair(file=True)
+        try:
+            nfw = ctx.n(200, 1500)
+            stats["file_walks"] = {"walks": nfw, "restarts": 0}
+            for w in range(nfw):
+                segs = []
+
+                def on_fevent(ev, toks, segs=segs):
+                    seg = fpair.lite(toks)
+                    if (len(segs) + 1) % K == 0:
+                        seg += " # " + fpair.full()
+                    segs.append(seg)
+
+                walk = gen_walk(fpair, ctx.rng, ml, mb, on_fevent)
+                events = [e for e, _ in walk]
+                if not segs[-1].count(" # FULL"):
+                    segs[-1] += " # " + fpair.full()
+                note_walk(stats, fpair, walk)
+                stats["file_walks"]["restarts"] += fpair.restarts
+                walks.append((f"filewalk{w}", events, segs, K))
+                if fpair.anomalies:
+                    dis.append({"input": {"events": [ev_json(e) for e in events], "label": "harness-anomaly"},
+                                "model": "-", "impl": repr(fpair.anomalies[:3])[:600]})
+            stats["chunked_deliveries"] = getattr(pair, "chunked", 0) + getattr(fpair, "chunked", 0)
+        finally:
+            fpair.close()
         # long scenarios: backlogs around batching constants, journals with holes / gap-fill rows
         stats["long_scenarios"] = []
         for li, size in enumerate(pick_sizes(ctx, ctx.rng)):
@@ -611,7 +746,7 @@ def correspondence(ctx):
         for (label, events, segs, k) in walks[:2] + walks[-2:]:
             samples.append({"label": label, "events": " ".join(short(e) for e in events)[:300], "last": segs[-1][:300]})
         # exhaustive
-        depth = ctx.n(7, 11)
+        depth = ctx.n(7, 10)
         ev2, dis2 = exhaustive(pair, drv, depth, stats)
         evals += ev2
         dis += dis2
@@ -627,7 +762,11 @@ def correspondence(ctx):
             "evaluations": evals,
             "distinct_nontrivial": len(distinct),
             "rule": f"{nw} random walks of length <= {ml} with <= {mb} breaks over two real connection objects (events: "
-                    "application send on either side with 4 message kinds, delivery of the next frame in either direction, "
+                    "application send on either side with 4 message kinds (explicit 43=N / stale 122; values that look like framing: "
+                    "8=FIX.4.4, 10=000, 9=12, FIX.* under tags ending in 8, '=' inside values, values longer than one read), delivery "
+                    "of the next frame in either direction as a whole or in 2-4 arbitrary chunks through the real reader loop, "
+                    "graceful logout by either application, on a second population of walks over SQLite FILE journals also "
+                    "endpoint restart (new Journaler + connection object over the same file), "
                     "break, reconnect+Logon; breaks biased towards recovery phases), each compared with the Link model after "
                     f"EVERY event (effects, states, counters, watermark, stored counters, row counts, queue lengths, quiescence) "
                     f"and on the whole state (journals decoded, queues) every {K}th event and at the end; plus exhaustive "
@@ -741,7 +880,9 @@ def drain(pair: Pair, events, mon, now, limit=60):
 
 
 def oracle(ctx, disagreements, broken):
-    pair = Pair()
+    mpair = Pair()
+    fpair = Pair(file=True)
+    pair = mpair          # the nested functions below see the current binding
     mon = Monitor()
     stuck = 0
     try:
@@ -757,11 +898,12 @@ def oracle(ctx, disagreements, broken):
         for dis in disagreements[:100]:
             evs = [ev_from_json(e) for e in dis["input"].get("events", [])]
             f0 = len(mon.failures)
+            pair = fpair if any(e[0] == "x" for e in evs) else mpair
             run_list(evs)
             if evs and len(mon.failures) == f0:
                 # continue the disagreeing prefix to quiescence: deliver everything, one clean break / reconnect / logon
                 tail = list(evs)
-                tnow = max(e[2] if e[0] in ("s", "d") else e[1] for e in evs) + 1000
+                tnow = max(ev_now(e) for e in evs) + 1000
                 drain(pair, tail, mon, tnow, limit=20000)
                 for ev in (("b", tnow + 125), ("r", tnow + 250)):
                     pair.apply(ev)
@@ -773,6 +915,7 @@ def oracle(ctx, disagreements, broken):
                                          "input": {"events": [ev_json(e) for e in tail]},
                                          "expected": "both ACTIVE, queues empty",
                                          "observed": f"states {pair.state('I')} {pair.state('A')}"})
+        pair = mpair
         for _, events in corpus_walks():
             run_list(events)
             ev2 = list(events)
@@ -789,7 +932,9 @@ def oracle(ctx, disagreements, broken):
                 if not bad and (len(done) % 16 == 0 or pair.quiescent()) and mon.check(pair, done):
                     bad.append(1)
 
+            pair = fpair if li % 3 == 2 else mpair
             events, info = long_walk(pair, ctx.rng, size, on_long, force={0: "A", 1: "I"}.get(li) or {1000: "A", 1001: "I"}.get(size))
+            info["file"] = pair.file
             if not bad and not mon.check(pair, events) and not pair.quiescent():
                 mon.failures.append({"signature": "C07-recovery-does-not-complete",
                                      "what": "after the recovery of a long backlog the two ends are not both ACTIVE with empty queues",
@@ -798,9 +943,13 @@ def oracle(ctx, disagreements, broken):
                                      "observed": f"states {pair.state('I')} {pair.state('A')}"})
             info["events"] = len(events)
             long_stats.append(info)
-        nw = ctx.n(1500, 10000) * (3 if broken else 1)
+        nw = ctx.n(800, 3000) * (3 if broken else 1)
+        nwf = ctx.n(150, 600) * (3 if broken else 1)
         ml, mb = ctx.n(40, 120), ctx.n(3, 6)
-        for _ in range(nw):
+        restarts_total = [0]
+        for wi in range(nw + nwf):
+            pair = mpair if wi < nw else fpair
+            restarts_total[0] += fpair.restarts if wi > nw else 0
             done = []
             bad = []
 
@@ -814,7 +963,7 @@ def oracle(ctx, disagreements, broken):
                 continue
             # after the walk: reconnect if needed and let everything in flight arrive -> must be quiescent and complete
             q0 = mon.quiescent
-            drain(pair, done, mon, done[-1][2 if done[-1][0] in ("s", "d") else 1] + 1000 if done else T0)
+            drain(pair, done, mon, (max(ev_now(e) for e in done) + 1000) if done else T0)
             if mon.quiescent == q0 and not pair.quiescent():
                 stuck += 1
                 mon.failures.append({"signature": "C07-recovery-does-not-complete",
@@ -825,15 +974,18 @@ def oracle(ctx, disagreements, broken):
             else:
                 mon.recoveries += 1
         # exhaustive on the implementation alone (when the tie is broken, or in the thorough tier)
+        pair = mpair
         if broken or ctx.tier == "thorough":
-            exhaustive_impl(pair, ctx.n(8, 10), lambda p, events: mon.check(p, events))
-        ctx.oracle_stats = {"states_checked": mon.n, "quiescent_points": mon.quiescent, "walks": nw,
+            exhaustive_impl(pair, ctx.n(8, 9), lambda p, events: mon.check(p, events))
+        ctx.oracle_stats = {"states_checked": mon.n, "quiescent_points": mon.quiescent, "walks": nw, "file_walks": nwf,
+                            "restarts": restarts_total[0], "chunked_deliveries": getattr(mpair, "chunked", 0) + getattr(fpair, "chunked", 0),
                             "completed_recoveries": mon.recoveries, "failures": len(mon.failures),
                             "long_scenarios": long_stats,
                             "sentences": ["duplicate-or-reordered-number", "not-a-subsequence", "number-reused",
                                           "lost-at-quiescence", "counters-differ-at-quiescence", "recovery-does-not-complete"]}
     finally:
-        pair.close()
+        fpair.close()
+        mpair.close()
     mon.failures.sort(key=lambda f: len(f["input"]["events"]))
     return mon.failures[:300]
 
@@ -861,10 +1013,10 @@ def exhaustive_impl(pair: Pair, depth, check):
 
 
 def replay(ctx, rp):
-    pair = Pair()
+    events = [ev_from_json(e) for e in rp["input"]["events"]]
+    pair = Pair(file=any(e[0] == "x" for e in events))
     mon = Monitor()
     try:
-        events = [ev_from_json(e) for e in rp["input"]["events"]]
         pair.reset()
         done = []
         for ev in events:
